@@ -322,4 +322,5 @@ def _cause(ie):
         return 'name_not_defined' + ('_validator' if '_validator' in msg else '')
     if ie['exc'] == 'ImportError':
         return 'circular_or_missing_import'
-    return msg[:40]
+    import re
+    return re.sub(r'vfpkg_\d+_\d+', 'pkg', msg)[:40]
